@@ -79,7 +79,7 @@ PROPS = {
               "Pw.Props.C10.C10_skip_partial", "Pw.Props.C10.C10_submin", "Pw.Props.C10.C10_error_class",
               "Pw.Props.C10.C10_session_step", "Pw.Props.C10.C10_startup", "Pw.Props.C10.slurpChunks_le",
               "Pw.Props.C10.slurpChunks_sum"],
-             [("limit", 4000, 160000), ("limitbig", 0, 12), ("copy", 1200, 60000)], ["Reader", "Consts"],
+             [("limit", 4000, 160000), ("limitbig", 0, 12), ("copy", 1200, 60000)], ["Reader", "Consts", "Session"],
              design_ref="§7 C10",
              level_text="Lean theorems for EVERY limit L and every 32-bit declared length: a body of at most L bytes is read exactly "
                         "(C10_accept), a larger one is never delivered, its declared body is consumed in full and the stream resumes at "
@@ -162,7 +162,7 @@ PROPS = {
               "Pw.copyRead_spec", "Pw.binFill_spec", "Pw.binRead_good"],
              [("hostile", 4000, 300000), ("alloc", 600, 20000), ("session", 1200, 100000), ("limit", 600, 40000),
               ("bincopy", 600, 40000), ("copy", 600, 40000), ("paramsd", 200, 6000), ("startup", 500, 40000)],
-             ["Panics", "Reader", "Params", "Accessors"],
+             ["Panics", "Reader", "Params", "Accessors", "Session"],
              design_ref="§7 C04",
              level_text="PARTIAL. Lean theorem C04_no_crash: for EVERY configuration, EVERY handler program and EVERY client byte "
                         "string (plaintext or inside TLS), in every phase and with the transport failing at any read or write "
@@ -220,7 +220,7 @@ PROPS = {
               "Pw.Props.C05.C05_after_completion_silent", "Pw.Props.C05.C05_one_complete", "Pw.Props.C05.C05_handler_no_ready",
               "Pw.Props.C05.C05_bad_row_silent", "Pw.Props.C05.C05_cycle", "Pw.Props.C05.C05_blank_no_parse",
               "Pw.Props.C05.C05_error_stops"],
-             [("simple", 3000, 250000)], ["Consts", "Writer"],
+             [("simple", 3000, 250000)], ["Consts", "Writer", "Session"],
              design_ref="§7 C05",
              level_text="Lean theorems, by induction over ALL handler programs (interaction trees, adaptive ones included): DataRows "
                         "emitted = Row calls that returned success; every Written() answer = rows delivered so far; wrong-arity, "
@@ -238,7 +238,7 @@ PROPS = {
              ["Pw.Props.C06.C06_skip", "Pw.Props.C06.C06_sync", "Pw.Props.C06.C06_error_one", "Pw.Props.C06.C06_bind_unknown",
               "Pw.Props.C06.C06_execute_unknown", "Pw.Props.C06.C06_parse_reply", "Pw.Props.C06.C06_flush",
               "Pw.Props.C06.C06_execute_no_ready"],
-             [("ext", 3000, 250000)], ["Consts"],
+             [("ext", 3000, 250000)], ["Consts", "Session"],
              design_ref="§7 C06",
              level_text="Lean theorems about the command handlers for EVERY session state and handler: while discarding, every message "
                         "except Sync/Terminate changes nothing at all (no reply, no callback); Sync emits exactly one ReadyForQuery and "
@@ -258,7 +258,7 @@ PROPS = {
              ["Pw.Props.C07.C07_store_refines", "Pw.Props.C07.C07_remove_refines", "Pw.Props.C07.lookup_store_same",
               "Pw.Props.C07.lookup_store_other", "Pw.Props.C07.lookup_remove_same", "Pw.Props.C07.lookup_remove_other",
               "Pw.Props.C07.C07_parse", "Pw.Props.C07.C07_bind", "Pw.Props.C07.C07_execute"],
-             [("names", 3000, 200000)], ["Startup"],
+             [("names", 3000, 200000)], ["Startup", "Session"],
              design_ref="§7 C07",
              level_text="Lean theorems: the statement and portal maps refine partial functions name -> definition (store replaces exactly "
                         "that name, remove makes exactly that name unresolvable, all other names untouched - for all maps and names, the "
@@ -275,7 +275,7 @@ PROPS = {
              ["Pw.Props.C13.C13_skip_flush_sync", "Pw.Props.C13.C13_data", "Pw.Props.C13.C13_done", "Pw.Props.C13.C13_fail",
               "Pw.Props.C13.C13_foreign", "Pw.Props.C13.C13_copyin_response", "Pw.Props.C13.C13_handler_emits_no_error",
               "Pw.Props.C13.C13_one_cycle"],
-             [("copy", 3000, 200000)], ["Consts"],
+             [("copy", 3000, 200000)], ["Consts", "Session"],
              design_ref="§7 C13",
              level_text="Lean theorems: in COPY mode any run of Flush/Sync messages is skipped, a CopyData payload reaches the handler "
                         "byte-exact and only that message is consumed, CopyDone is end-of-stream, CopyFail and every other message type "
@@ -349,7 +349,7 @@ PROPS = {
              technique="Lean 4 proof (induction on the pair list, membership reasoning on the parameter map) + differential correspondence"),
     "C19": P("Pw.Props.C19",
              ["Pw.Props.C19.C19_chain", "Pw.Props.C19.C19_failure_ends", "Pw.Props.C19.C19_terminate", "Pw.Props.C19.mwEvents_succ"],
-             [("lifecycle", 3000, 150000)], ["Startup"],
+             [("lifecycle", 3000, 150000)], ["Startup", "Session"],
              design_ref="§7 C19",
              level_text="Lean theorems: for ANY number of registered middlewares they run once each, in registration order, up to and "
                         "including the first failing one, write nothing, and the chain succeeds exactly when none fails (induction on the "
